@@ -102,6 +102,7 @@ func runOracle(args []string) {
 	c.r = rand.New(rand.NewSource(c.seed*7919 + 17))
 	c.deadline = time.Now().Add(time.Duration(budget) * time.Second)
 	c.out = bufio.NewWriter(os.Stdout)
+	processPrelude()
 	f, ok := oracles[c.pid]
 	if ok {
 		f(c)
